@@ -240,6 +240,9 @@ func (e *StringExpr) Check(ctx *CheckCtx) error {
 }
 
 func (e *NotExpr) Check(ctx *CheckCtx) error {
+	if err := e.Right.Check(ctx); err != nil {
+		return err
+	}
 	if e.Right.ReturnType() != TBOOL {
 		return NewSyntaxError(e.Right.GetPos(), "! operator right expression has wrong type")
 	}
@@ -310,6 +313,9 @@ func (e *ListExpr) Check(ctx *CheckCtx) error {
 }
 
 func (e *FieldAccessExpr) Check(ctx *CheckCtx) error {
+	if err := e.Left.Check(ctx); err != nil {
+		return err
+	}
 	_, leftIsFAE := e.Left.(*FieldAccessExpr)
 	lrType := e.Left.ReturnType()
 	switch lrType {
